@@ -52,6 +52,13 @@ func settersOf(s allocShape, salt byte) *shapeSetters {
 	}
 	x.addr = stun.XORMappedAddress{IP: ip, Port: 1000 + int(salt)}
 	x.ec = stun.ErrorCodeAttribute{Code: 438, Reason: []byte("stale")}
+	if s.Text == 513 {
+		// the largest shapes also carry the longest reason phrase the attribute allows
+		x.ec.Reason = make([]byte, 763)
+		for i := range x.ec.Reason {
+			x.ec.Reason[i] = 'r'
+		}
+	}
 	x.ua = make(stun.UnknownAttributes, s.Unk)
 	for i := range x.ua {
 		x.ua[i] = stun.AttrType(0x7000 + i)
